@@ -309,6 +309,9 @@ class ModelMixin:
             v = self.force(v)
         if isinstance(v, (PyTuple, PyList)):
             return PyList([PyTuple([i, x]) for i, x in enumerate(v.items)])
+        if isinstance(v, ZipV):
+            a, b = v.xs
+            v = SeqV(z3.If(a.n <= b.n, a.n, b.n), lambda i: PyTuple([a.elem(i), b.elem(i)]))
         if isinstance(v, SeqV):
             return SeqV(v.n, lambda i: PyTuple([Sym("int", i), v.elem(i)]))
         raise Unsupported("enumerate")
